@@ -1,10 +1,11 @@
 import H2V.Lemmas.ConnResetPRel
 /-
   ConnResetP — every transition function of `State` (state.rs) is a `StateStep`, and the helper
-  lemmas that turn a `StateStep` / a queue change at one key into an `Evolves SRel RInv` step.
+  lemmas that turn a `StateStep` / a queue change at one key into an `Evolves (SRel D) RInv` step.
 -/
 namespace H2V.Lemmas.ConnResetP
 open H2V H2V.Model H2V.Model.Conn
+variable {D : Nat → Prop}
 
 section state
 variable (id : Nat) (s : State)
@@ -60,29 +61,32 @@ section steps
 variable {a S : Store}
 
 /-- the state of entry `id` makes a `StateStep` (computed from the entry itself) -/
-theorem Evolves.mod_state (h : Evolves SRel RInv a S) (id : Nat) (f : Stream → Stream)
+theorem Evolves.mod_state (h : Evolves (SRel D) RInv a S) (id : Nat) (f : Stream → Stream)
     (hk : ∀ st, (f st).key = st.key) (hi : ∀ st, (f st).id = st.id) (hq : ∀ st, (f st).pendingSend = st.pendingSend)
+    (hrc : ∀ st, (f st).refCount = st.refCount)
     (hs : StateStep (Store.getD' S id).id (Store.getD' S id).state (f (Store.getD' S id)).state) :
-    Evolves SRel RInv a (Store.mod S id f) := by
+    Evolves (SRel D) RInv a (Store.mod S id f) := by
   refine h.mod id f (fun st hg => ?_)
   rw [Store.getD'_of_get? hg] at hs
-  exact SRel.state_step (hk st) (hi st) (hq st) hs
+  exact SRel.state_step (hk st) (hi st) (hq st) (hrc st) hs
 
 /-- the queue of entry `id` changes without gaining an RST_STREAM -/
-theorem Evolves.mod_queue (h : Evolves SRel RInv a S) (id : Nat) (f : Stream → Stream)
+theorem Evolves.mod_queue (h : Evolves (SRel D) RInv a S) (id : Nat) (f : Stream → Stream)
     (hk : ∀ st, (f st).key = st.key) (hi : ∀ st, (f st).id = st.id) (hs : ∀ st, (f st).state = st.state)
+    (hrc : ∀ st, (f st).refCount = st.refCount)
     (hq : resetCount (f (Store.getD' S id)).pendingSend ≤ resetCount (Store.getD' S id).pendingSend) :
-    Evolves SRel RInv a (Store.mod S id f) := by
+    Evolves (SRel D) RInv a (Store.mod S id f) := by
   refine h.mod id f (fun st hg => ?_)
   rw [Store.getD'_of_get? hg] at hq
-  exact SRel.queue_le (hk st) (hi st) (hs st) hq
+  exact SRel.queue_le (hk st) (hi st) (hs st) (hrc st) hq
 
 /-- same, when the bound holds for every stream -/
-theorem Evolves.mod_queue' (h : Evolves SRel RInv a S) (id : Nat) (f : Stream → Stream)
+theorem Evolves.mod_queue' (h : Evolves (SRel D) RInv a S) (id : Nat) (f : Stream → Stream)
     (hk : ∀ st, (f st).key = st.key) (hi : ∀ st, (f st).id = st.id) (hs : ∀ st, (f st).state = st.state)
+    (hrc : ∀ st, (f st).refCount = st.refCount)
     (hq : ∀ st, resetCount (f st).pendingSend ≤ resetCount st.pendingSend) :
-    Evolves SRel RInv a (Store.mod S id f) :=
-  h.mod id f (fun st _ => SRel.queue_le (hk st) (hi st) (hs st) (hq st))
+    Evolves (SRel D) RInv a (Store.mod S id f) :=
+  h.mod id f (fun st _ => SRel.queue_le (hk st) (hi st) (hs st) (hrc st) (hq st))
 
 end steps
 
@@ -108,15 +112,18 @@ theorem setReset_pendingSend (st : Stream) (r : Reason) (i : Initiator) :
 theorem setReset_id (st : Stream) (r : Reason) (i : Initiator) : (st.setReset r i).1.id = st.id :=
   (setReset_core st r i).id
 
+theorem setReset_refCount (st : Stream) (r : Reason) (i : Initiator) : (st.setReset r i).1.refCount = st.refCount :=
+  (setReset_core st r i).refCount
+
 /-- `Stream::set_reset` on a stream whose implicit reset was scheduled -/
 theorem SRel.setReset_scheduled (st : Stream) (r : Reason) (i : Initiator) (h : st.state.isScheduledReset = true) :
-    SRel st (st.setReset r i).1 :=
-  SRel.state_step (setReset_key st r i) (setReset_id st r i) (setReset_pendingSend st r i)
+    SRel D st (st.setReset r i).1 :=
+  SRel.state_step (setReset_key st r i) (setReset_id st r i) (setReset_pendingSend st r i) (setReset_refCount st r i)
     (by rw [setReset_state]; exact step_setReset_scheduled _ _ _ _ _ h)
 
 theorem SRel.setReset_fresh (st : Stream) (r : Reason) (i : Initiator) (h : st.state.isReset = false) :
-    SRel st (st.setReset r i).1 :=
-  SRel.state_step (setReset_key st r i) (setReset_id st r i) (setReset_pendingSend st r i)
+    SRel D st (st.setReset r i).1 :=
+  SRel.state_step (setReset_key st r i) (setReset_id st r i) (setReset_pendingSend st r i) (setReset_refCount st r i)
     (by rw [setReset_state]; exact step_setReset_fresh _ _ _ _ _ h)
 
 end H2V.Lemmas.ConnResetP
@@ -124,6 +131,7 @@ end H2V.Lemmas.ConnResetP
 -- ===================================================================== fusing consecutive modifications of one entry
 namespace H2V.Lemmas.ConnResetP
 open H2V H2V.Model H2V.Model.Conn
+variable {D : Nat → Prop}
 
 theorem Store.set_set (S : Store) (x y : Stream) (h : y.key = x.key) : (S.set x).set y = S.set y := by
   unfold Store.set
